@@ -62,6 +62,11 @@ func PeerEntities() []world.EntSpec {
 			{ID: 2, Type: model.FeatureTypeTypeLoadControl, Role: model.RoleTypeClient},
 			{ID: 3, Type: model.FeatureTypeTypeLoadControl, Role: model.RoleTypeServer, Funcs: []world.FuncSpec{{Fn: model.FunctionTypeLoadControlLimitListData, Read: true, Write: true}}},
 		}},
+		// a sub-entity of [2]: it stays when [2] is announced as removed
+		{Addr: []uint{2, 1}, Type: model.EntityTypeTypeEV, Feats: []world.FeatSpec{
+			{ID: 1, Type: model.FeatureTypeTypeMeasurement, Role: model.RoleTypeClient},
+			{ID: 2, Type: model.FeatureTypeTypeElectricalConnection, Role: model.RoleTypeClient},
+		}},
 	}
 }
 
@@ -121,7 +126,7 @@ func (r Ref) String() string { return fmt.Sprintf("%v/%d", r.Ent, r.Feat) }
 
 // ClientRefs are the candidate client-side references on a peer (valid, wrong role, unknown, special).
 var ClientRefs = []Ref{
-	{[]uint{1}, 1}, {[]uint{1}, 2}, {[]uint{1}, 3}, {[]uint{1}, 5}, {[]uint{2}, 1}, {[]uint{2}, 2}, // clients
+	{[]uint{1}, 1}, {[]uint{1}, 2}, {[]uint{1}, 3}, {[]uint{1}, 5}, {[]uint{2}, 1}, {[]uint{2}, 2}, {[]uint{2, 1}, 1}, {[]uint{2, 1}, 2}, // clients
 	{[]uint{1}, 4}, // a server feature (wrong role)
 	{[]uint{1}, 9}, // unknown feature
 	{[]uint{3}, 1}, // unknown entity
